@@ -3,7 +3,7 @@ CONSTANTS
  NR = 3
  MaxNodes = 5
  MaxDepth = 2
- MaxItems = 3
+ MaxItems = 4
  ScalarIds = {1,3,5,7,8,9,11,12}
  KeyIds = {1,2,3}
  MaxOps = 3
